@@ -52,6 +52,8 @@ type vHLine struct {
 	ClosedMs  int64  `json:"closedMs"` // stream: when the node closed it (-1: not within the wait)
 	TimeoutMs int64  `json:"timeoutMs"`
 	Panic     string `json:"panic"`
+	Qmax      int    `json:"qmax"` // handoff flood: the longest the handoff queues ever were
+	Qcap      int    `json:"qcap"` // ... and the configured depth
 }
 
 func vHCfg(name string) vWCfg {
@@ -164,6 +166,18 @@ func vHostileInner(c vHClass) (out [][]byte, headerLen int) {
 	case "pushpull/usercap":
 		h := append([]byte{byte(pushPullMsg)}, vMsgpack(&pushPullHeader{Nodes: 0, UserStateLen: maxPushStateBytes + 1})...)
 		out, headerLen = append(out, h), len(h)
+	case "pushpull/concurrent":
+		// a complete, well-formed exchange of some size: 64 members and 60000 bytes of user state
+		h := append([]byte{byte(pushPullMsg)}, vMsgpack(&pushPullHeader{Nodes: 64, UserStateLen: 60000, Join: false})...)
+		body := append([]byte(nil), h...)
+		for i := 0; i < 64; i++ {
+			body = append(body, vMsgpack(&pushNodeState{Name: fmt.Sprintf("mallory-%d", i), Addr: []byte{10, 9, 0, byte(i)}, Port: 7946,
+				Incarnation: 1, State: StateAlive, Vsn: []uint8{1, 5, 2, 0, 0, 0}})...)
+		}
+		body = append(body, make([]byte, 60000)...)
+		out, headerLen = append(out, body), len(h)
+	case "handoff/flood":
+		out = append(out, append([]byte{byte(userMsg)}, []byte("flood")...))
 	case "usermsg/cap":
 		h := append([]byte{byte(userMsg)}, vMsgpack(&userMsgHeader{UserMsgLen: maxUserMsgBytes + 1})...)
 		out, headerLen = append(out, h), len(h)
@@ -261,6 +275,60 @@ func vRunHostile(t *testing.T, s *vSink, id int, c vHClass) []vHLine {
 			}
 		}
 		d0 := digest()
+		if c.Defect == "concurrent" {
+			// as many push/pulls as the cap allows are in progress (each has announced a state and is still sending it)
+			open := append([]byte{byte(pushPullMsg)}, vMsgpack(&pushPullHeader{Nodes: 3, UserStateLen: 0, Join: false})...)
+			hold := vHostileWire(c, cfg, open)
+			var held []net.Conn
+			for i := 0; i < maxPushPullRequests; i++ {
+				h1, h2 := net.Pipe()
+				B.tr.streamCh <- h1
+				go func() { _, _ = h2.Write(hold) }()
+				held = append(held, h2)
+			}
+			time.Sleep(20 * time.Millisecond)
+			synctest.Wait()
+			defer func() {
+				for _, h := range held {
+					_ = h.Close()
+				}
+			}()
+		}
+		if c.Defect == "flood" {
+			// the application is busy with the first message while many more arrive
+			l.Qcap = B.m.config.HandoffQueueDepth
+			gate := make(chan struct{})
+			B.d.mu.Lock()
+			B.d.gate = gate
+			B.d.mu.Unlock()
+			for i := 0; i < 3*l.Qcap; i++ {
+				B.tr.packetCh <- &Packet{Buf: wire, From: &net.UDPAddr{IP: net.IPv4(10, 0, 0, 66), Port: 7946}, Timestamp: time.Now()}
+				if i%64 == 63 {
+					time.Sleep(time.Millisecond)
+					synctest.Wait()
+					B.m.msgQueueLock.Lock()
+					if q := B.m.lowPriorityMsgQueue.Len() + B.m.highPriorityMsgQueue.Len(); q > l.Qmax {
+						l.Qmax = q
+					}
+					B.m.msgQueueLock.Unlock()
+				}
+			}
+			synctest.Wait()
+			B.m.msgQueueLock.Lock()
+			if q := B.m.lowPriorityMsgQueue.Len() + B.m.highPriorityMsgQueue.Len(); q > l.Qmax {
+				l.Qmax = q
+			}
+			B.m.msgQueueLock.Unlock()
+			B.d.mu.Lock()
+			B.d.gate = nil
+			B.d.mu.Unlock()
+			close(gate)
+			time.Sleep(50 * time.Millisecond)
+			synctest.Wait()
+			l.Changed = digest() != d0
+			lines = append(lines, l)
+			continue
+		}
 		if c.Path == "packet" {
 			B.tr.packetCh <- &Packet{Buf: wire, From: &net.UDPAddr{IP: net.IPv4(10, 0, 0, 66), Port: 7946}, Timestamp: time.Now()}
 			time.Sleep(30 * time.Millisecond)
